@@ -141,7 +141,7 @@ Definition C19_unsafe_sites_now := unsafe_sites alias_sites.
 Definition tables_ok : ctables :=
   {| t_setattr := [YScalar; YImmStruct; YImmWrapper]; t_setattr_copies := true;
      t_set := [YScalar; YImmStruct; YImmWrapper]; t_set_copies := true;
-     t_mixin := [YScalar; YTuple; YWrapper; YImmStruct]; t_mixin_copies := true;
+     t_mixin := [YScalar; YTuple; YImmWrapper; YImmStruct]; t_mixin_copies := true;
      t_list_gate := true; t_deque_gate := true; t_dict_gate := true; t_map_custom := true |}.
 Definition tables_tuple_exempt : ctables :=
   {| t_setattr := [YWrapper; YImmStruct; YScalar; YTuple]; t_setattr_copies := true;
@@ -168,5 +168,13 @@ Example C19_intake_nonvacuous :
   retains sites_ok_example tables_tuple_exempt OwnImmStruct false TAny (VTuple [VAtom; VAtom]) = false /\
   typed_inside (TArray (Some (TTuple [TScalar true; TMap (Some (TScalar true))]))) = true /\
   shape_ok false (TArray (Some (TTuple [TScalar true; TMap (Some (TScalar true))])))
-           (VList [VTuple [VAtom; VDict [VAtom; VAtom]]]) = true.
+           (VList [VTuple [VAtom; VDict [VAtom; VAtom]]]) = true /\
+  (* the live value of another instance's Array[Map[str, Array[int]]] field handed to a typed field: rebuilt *)
+  shape_ok false (TArray (Some (TMap (Some (TArray (Some (TScalar true)))))))
+           (VWrapper [VWrapper [VWrapper [VAtom]]; VWrapper [VWrapper []]]) = true /\
+  mutable_reach (VWrapper [VWrapper [VWrapper [VAtom]]]) = true /\
+  retains sites_ok_example tables_ok OwnPlain false (TArray (Some (TMap (Some (TArray (Some (TScalar true)))))))
+          (VWrapper [VWrapper [VWrapper [VAtom]]; VWrapper [VWrapper []]]) = false /\
+  (* ... while an UNTYPED Array keeps the donor's inner wrappers *)
+  retains sites_ok_example tables_ok OwnPlain false (TArray None) (VWrapper [VWrapper [VAtom]]) = true.
 Proof. vm_compute. repeat split. Qed.
